@@ -37,7 +37,7 @@ func init() {
 		// 5: the same parser has already parsed the path to its last command and is re-used as it is (nothing is required in these trees)
 		// 6: an unknown-option handler is installed that hands the arguments back unchanged: an unknown option is then no fault, every other fault still is
 		extra := c.Deviate(7)
-		mc := c.Choose(5)     // Execute, Execute+error, CommandHandler, CommandHandler+error, completion mode
+		mc := c.Choose(5) // Execute, Execute+error, CommandHandler, CommandHandler+error, completion mode
 		mode, inject := mc/2, mc%2 == 1
 		key := fmt.Sprintf("s%d/o%d/r%d/p%d/h%d/e%d", si, om, rq, ps, hm, extra)
 		td, seen := c09Cache[key]
